@@ -66,6 +66,13 @@ def auto_discharge(site, fn, T, panic_abort):
         if a[0] == "call" and a[1] in ("std::sync::Mutex::lock", "std::sync::RwLock::read", "std::sync::RwLock::write"):
             if panic_abort:
                 return "lock poisoning requires a prior panic; panic=abort in every profile"
+    if site.kind == "extern" and site.callee == "<time::Instant as std::ops::Sub>::sub" and len(site.terms) >= 2:
+        # elapsed time: both operands are readings of the context clock taken in this body (Instant - Instant panics only
+        # when the signed difference does not fit 64-bit seconds)
+        def reading(x):
+            return x[0] == "call" and x[1] in ("zksync_concurrency::ctx::Ctx::now", "zksync_concurrency::ctx::clock::Clock::now", "time::Instant::now")
+        if reading(site.terms[0]) and reading(site.terms[1]):
+            return "difference of two readings of the context clock taken in this function"
     if site.kind == "index" and t["k"] == "assert" and t["msg"].get("k") == "BoundsCheck":
         pass
     if site.kind == "index" and t["k"] == "call" and len(site.terms) > 1:
@@ -901,6 +908,86 @@ def _linear_bound(ctx, site):
     return None
 
 
+def _assert_implied_by_branch(ctx, site):
+    """assert!(c) / debug_assert!(c) inside the branch that was taken because c holds: the failing arm of the assertion is
+    dominated by the true edge of an earlier test of the very same (unchanging) condition."""
+    fn = site.fn
+    if site.kind != "panic":
+        return None
+    T = ctx.T(fn)
+    cfg = _plain_cfg(fn)
+    preds = set(p for _, p in cfg.pred[site.bb])
+    if len(preds) != 1:
+        return None
+    pb = preds.pop()
+    si = T.switch_info(pb)
+    if si is None:
+        return None
+    cond, edges = si
+    labs = edges.get(site.bb)
+    if labs not in ([False], [True]):
+        return None
+    holds = not labs[0]          # the assertion passes when cond == holds
+    neg = False
+    c = cond
+    while c[0] == "un" and c[1] == "Not":
+        neg = not neg
+        c = c[2]
+    if neg:
+        holds = not holds
+    if not _stable(T, c):
+        return None
+
+    def pred(sx):
+        return holds if sx == c else None
+    if _dominating_truth(fn, T, pb, pred):
+        return "assertion of a condition that the enclosing branch has just established (same unchanging term)"
+    return None
+
+
+def _monotone_atomic_counter(ctx, site):
+    """`counter.fetch_add(k, ..) + c` on a 64-bit atomic that the workspace only ever increases by constants (fetch_add /
+    load and nothing else on that field): the previous value is at most the number of increments performed, so the
+    addition overflows only after 2^64 events."""
+    from engine.guards import chain
+    fn = site.fn
+    t = fn.blocks[site.bb]["t"]
+    if site.kind != "overflow" or t["k"] != "assert" or t["msg"].get("op") != "Add" or len(site.terms) < 2:
+        return None
+    a, b = site.terms[0], site.terms[1]
+    if is_const(a):
+        a, b = b, a
+    if not (is_const(b) and isinstance(b[1], int) and 0 <= b[1] <= 2 ** 32):
+        return None
+    if not (a[0] == "call" and a[1].startswith("std::sync::atomic::Atomic") and a[1].endswith("::fetch_add") and len(a[2]) >= 2 and is_const(a[2][1])):
+        return None
+    o = t["msg"].get("a") or {}
+    d = o.get("c") or o.get("m") or o.get("k") or {}
+    if "t" not in d or fn.ty(d["t"]).s not in ("u64", "usize", "u128"):
+        return None
+    name = chain(a[2][0])[1][-1:]
+    if not name:
+        return None
+    cache = ctx.F.__dict__.setdefault("_atomic_uses", {})
+    uses = cache.get(name[0])
+    if uses is None:
+        uses = set()
+        for g in ctx.F.fns:
+            if g.in_testonly():
+                continue
+            Tg = ctx.T(g)
+            for c in Tg.calls():
+                if c["q"].startswith("std::sync::atomic::Atomic"):
+                    ar = Tg.args_of(c)
+                    if ar and chain(ar[0])[1][-1:] == name:
+                        m = c["q"].rsplit("::", 1)[1]
+                        uses.add(m if m != "fetch_add" or (len(ar) > 1 and is_const(ar[1])) else "fetch_add(non-const)")
+        cache[name[0]] = uses
+    if uses <= {"fetch_add", "load", "new"}:
+        return "previous value of a 64-bit atomic counter that is only ever increased by constants (`%s`: %s)" % (name[0], sorted(uses))
+    return None
+
+
 def dedupe(ctx, sites, panic_abort):
     """One entry per written instruction: [(representative Site, discharge reason or None)]. An instruction of a
     helper that was inlined into several callers is discharged only if every copy is (the operands may be
@@ -911,7 +998,7 @@ def dedupe(ctx, sites, panic_abort):
         groups.setdefault((s.ident, s.kind, s.callee), []).append(s)
     out = []
     for ss in groups.values():
-        rs = [auto_discharge(s, s.fn, ctx.T(s.fn), panic_abort) or _infeasible(ctx, s) or _linear_bound(ctx, s) for s in ss]
+        rs = [auto_discharge(s, s.fn, ctx.T(s.fn), panic_abort) or _infeasible(ctx, s) or _linear_bound(ctx, s) or _monotone_atomic_counter(ctx, s) or _assert_implied_by_branch(ctx, s) for s in ss]
         if all(r is not None for r in rs):
             out.append((ss[0], rs[0]))
         else:
